@@ -402,36 +402,38 @@ def netcdf_child(root, seed):
             "i32": ("x", np.array([rng.randint(-2 ** 31, 2 ** 31 - 1) for _ in range(n)], dtype="i4")),
             "i64": ("x", np.array([rng.choice([2 ** 40 + 1, -7, 0]) for _ in range(n)], dtype="i8")),
             "big": ("x", np.array([rng.choice([2 ** 60 + 1, -(2 ** 62) - 3]) for _ in range(n)], dtype="i8")),
-            "u8": ("x", np.array([rng.choice([0, 7, 254]) for _ in range(n)], dtype="u1")),
+            "u8": ("x", np.array([rng.choice([0, 7, 254, 255]) for _ in range(n)], dtype="u1")),
+            "i16": ("x", np.array([rng.choice([-32767, -32768, 0, 32767]) for _ in range(n)], dtype="i2")),
+            "scn": ("x", np.array([rng.choice([5.0, float("nan"), 7.3]) for _ in range(n)])),
             "t": ("x", np.array([np.datetime64("2018-01-01T00:00:00") + np.timedelta64(rng.randint(0, 10 ** 6), "s") for _ in range(n)], dtype="M8[ns]")),
             "sc": ("x", np.array([rng.choice([5.0, 5.1, 7.3]) for _ in range(n)])),
         }, coords={"x": np.arange(n)}, attrs={"title": "verif ü"})
         ds["sc"].encoding = {"scale_factor": 0.1, "add_offset": 5.0, "dtype": "int16", "_FillValue": -999}
+        ds["scn"].encoding = {"scale_factor": 0.1, "add_offset": 5.0, "dtype": "int16", "_FillValue": -999}
         t = base + dt.timedelta(hours=i)
         n1[t] = ds
         stored[t] = ds
 
     def cmp(ds, back, where):
-        for v in ds.data_vars:
+        for v in list(ds.data_vars) + ["x"]:
             x, y = ds[v].values, back[v].values
-            if v == "sc":
-                ok = np.allclose(x, y, atol=0.051)
+            if x.shape != y.shape:
+                problems.append(["netcdf-roundtrip", f"{where}: variable {v} shape {x.shape} read back as {y.shape}"])
+                continue
+            if v in ("sc", "scn"):
+                # packed as int16 with scale 0.1 / offset 5: half a step of quantisation, NaN <-> _FillValue
+                ok = y.dtype.kind == "f" and bool((np.isnan(x) == np.isnan(y)).all()) and \
+                    np.allclose(x[~np.isnan(x)], y[~np.isnan(x)], atol=0.0500001, rtol=0)
             elif x.dtype.kind == "f":
-                ok = np.array_equal(x, y.astype(x.dtype), equal_nan=True)
+                ok = y.dtype == x.dtype and np.array_equal(x, y, equal_nan=True)
             elif x.dtype.kind == "M":
-                ok = (x == y.astype("M8[ns]")).all()
+                ok = y.dtype.kind == "M" and bool((x == y.astype("M8[ns]")).all())
             else:
-                if y.dtype.kind in "iu":
-                    ok = bool((x == y).all())
-                else:
-                    # integers handed back as floats: tolerated while every value survives exactly
-                    info["int_read_as_float"] = info.get("int_read_as_float", 0) + 1
-                    exact = [float(a) == b and int(b) == int(a) for a, b in zip(x.tolist(), y.tolist()) if b == b]
-                    ok = len(exact) == len(x) and all(exact)
-                    if not ok:
-                        problems.append(["netcdf-int-value-changed", f"{where}: integer variable {v} ({x.dtype}) read back as {y.dtype} with "
-                                                                     f"changed values: {x[:3].tolist()} vs {y[:3].tolist()}"])
-                        continue
+                # integers (data variables and the coordinate) must come back as the same integer type, value by value
+                if y.dtype != x.dtype or not bool((x == y).all()):
+                    problems.append(["netcdf-int-value-changed", f"{where}: integer variable {v} ({x.dtype}) read back as {y.dtype}: "
+                                                                 f"{x[:3].tolist()} vs {y[:3].tolist()}"])
+                continue
             if not ok:
                 problems.append(["netcdf-roundtrip", f"{where}: variable {v} ({x.dtype}) read back as {y.dtype}: {x[:3]} vs {y[:3]}"])
         if back.attrs.get("title") != "verif ü":
